@@ -376,6 +376,12 @@ class Ctx:
         self.run_dir = os.path.join(CACHE, "run.%d" % os.getpid())
         self._known = None
         os.makedirs(os.path.join(VERIF, "replays"), exist_ok=True)
+        for f in os.listdir(os.path.join(VERIF, "replays")):   # replays of an earlier run of this check/tier are stale
+            if f.startswith("%s-%s-" % (pid, tier)):
+                try:
+                    os.remove(os.path.join(VERIF, "replays", f))
+                except OSError:
+                    pass
 
     # -- scratch
     def scratch(self, name=""):
